@@ -146,7 +146,7 @@ theorem withSources_eq (y : YModule) (m : Module) :
 
 def buildDepFilesOf (y : YModule) (bd rp : String) (m : Module) : Option (List String) :=
   match y.download with
-  | some d => some (setInsert (m.buildDepFiles.getD []) (d.tagfile (d.srcdir bd rp m.name)))
+  | some d => some (setInsert (m.buildDepFiles.getD []) (d.tagfile (y.srcdir.getD (d.srcdir bd rp m.name))))
   | none => m.buildDepFiles
 
 theorem withDownload_eq (y : YModule) (bd rp : String) (m : Module) :
